@@ -50,12 +50,16 @@ CHECKS = {
         text='Lean theorems on a model of _find_shebang and of the re-attachment in minify(): a source starting with #! yields exactly its '
              'first physical line under the LF / CRLF / lone-CR rule, any other source yields none, the output\'s first line is that line '
              'when preservation is on and the output is the printed module alone otherwise; the two regular expressions and the '
-             '`preserve_shebang is True` test are regenerated from the source and must equal the modelled ones (decide). Tie: model vs '
+             '`preserve_shebang is True` test are regenerated from the source and must equal the modelled ones (decide). The encoding a '
+             'declared name stands for (the normalisation in _source_encoding, CPython\'s get_normal_name) is modelled: it depends only on '
+             'the first twelve characters whatever their case, an editor suffix after a separator is ignored, iso-8859-1 continued by '
+             'anything else is another codec; its name tables are regenerated (decide). Ties: normalName vs _source_encoding and vs '
+             'tokenize._get_normal_name on 1466 declared names; model vs '
              '_find_shebang on all strings of length <= 4 over a 7-character alphabet plus random lines, for text and bytes. Decoding '
              '(PEP 263 cookies, BOM), strict tree equality of parse(output) with parse(input), and api(bytes) == api(text) are decided on '
              'the real code over the full encoding x newline x shebang x input-kind x preserve matrix.',
-        note='PARTIAL: source decoding is CPython\'s (assumed); the shebang bytes decoding with the declared encoding is outside the Lean '
-             'model (code units). Composition with C02 gives that the rest of the output is the printed tree.',
+        note='PARTIAL: source decoding and the codecs are CPython\'s (assumed); finding the declaration (the cookie regex) is covered by the '
+             'matrix only. Composition with C02 gives that the rest of the output is the printed tree.',
         technique='Lean 4 proof (list lemmas over a regex model, generated patterns by decide) + correspondence + encoding matrix oracle',
         ref='§6 C16'),
     'C11': dict(
@@ -76,7 +80,7 @@ CHECKS = {
              'specification canon_O of the documented rewrites; theorems: for remove_pass, remove_asserts, remove_literal_statements, remove_debug, combine_imports, remove_object_base and remove_explicit_return_none the '
              'output equals the input modulo canon at every nesting depth (mutual induction over statements), blocks never become empty, '
              'statements of other kinds are all kept, combining imports preserves the sequence of imported names, all-off is the identity, '
-             'the pipeline table equals the modelled one (decide); under the `python -O` semantics of Spec.PyCore (validated against compile(optimize=1)) '
+             'the pipeline table equals the modelled one (decide); none of remove_pass / remove_asserts / remove_debug gives a block a leading string statement it did not have (docstring_never_gained, after fixes F39 / F41); under the `python -O` semantics of Spec.PyCore (validated against compile(optimize=1)) '
              'remove_asserts and remove_debug leave the observable of every module unchanged provided the removed statements bind no function-local name (decidable side condition scopeStable, evaluated per program; without it the claim is false: theorem remove_debug_changes_scoping exhibits the witness, replayed on CPython as finding F38) (the "equals what -O would run" clause). Ties: original and minified are executed under optimize=1 on directed and generated programs; the model prints the same text as minify() on every statement-kind x '
              'suite-kind template and random modules under single switches, default flips, pairs and random subsets. For the remaining '
              'options canon_O(minify(P,O)) == canon_O(P) is evaluated on the real code with the Lean specification as the oracle.',
@@ -126,7 +130,10 @@ CHECKS = {
         text='Lean: the top-level shape of minify() (stages, conditions, order) regenerated from the source equals the modelled pipeline, '
              'in which the taint block clears both renaming flags and the name-introducing stages (literal hoisting, exception-bracket '
              'removal) are gated on not module.tainted (decide on generated tables); when every binding is pinned the NameAssigner model '
-             'renames nothing and introduces no name (theorem). Tie: generated pipeline table + the assigner correspondence of C03. '
+             'renames nothing and introduces no name (theorem); a model of the traversals allow_rename_locals / allow_rename_globals '
+             '(PMV.Freeze, with an iff-specification) proves that with the flags cleared every binding of every namespace, at any depth '
+             'and on whatever kind of node, is frozen — the premise of that theorem. Ties: generated pipeline table; the assigner '
+             'correspondence of C03; the freeze model against the real functions on the node / namespace / binding trees of generated programs. '
              'Taint detection itself (which programs set module.tainted) is decided by an oracle on the real code: trigger x position x '
              'program enumeration, the output tree must be identical to the input tree; a control group with shadowed trigger names '
              'must still be renamed.',
@@ -138,13 +145,19 @@ CHECKS = {
         text='Lean theorems on a model of NameAssigner (reservation scopes, cost model, generator table, the must-rename rule): for every '
              'set of bindings, two bindings whose reservation scopes share a namespace never end up with the same name when one of them '
              'was renamed; new names come from the generator table, which (decide, regenerated from the running name_filter) contains no '
-             'keyword or builtin; pinned bindings keep their names. Tie: the model is fed the binding structures the real scope analysis '
-             'produced and must choose exactly the names the real rename() chose. The remaining half of the property — that the scope '
-             'analysis puts every namespace on the interpreter\'s lookup path into the reservation scope — is decided by an '
+             'keyword or builtin; pinned bindings keep their names. A model of resolve_names.get_binding / get_nonlocal_namespace over the '
+             'dumped namespace tree is proved to answer with the first scope on Python\'s lookup path (own scope unless global / nonlocal, '
+             'enclosing non-class scopes, module; get_binding_is_python_lookup, class_bodies_skipped), and lookup_after_renaming composes the '
+             'two: the same lookup on the renamed tree, under the new spelling, finds the scope it found before, given that the reservation '
+             'scope covers the lookup path below the home (cover) and the assigner\'s no-clash guarantee. Ties: the assigner model is fed the '
+             'binding structures the real scope analysis produced and must choose exactly the names the real rename() chose; the resolver '
+             'model and the real get_binding are asked for every Name of every program; cover is checked on the real structures. The remaining '
+             'part — which names a namespace binds and which namespaces a binding reserves (mapper / bind_names) — is decided by an '
              'alpha-equivalence oracle on the real code built on a scoping specification validated against symtable, over an exhaustive '
              'outer-scope x binding-form x reference-position enumeration (6337 programs) and random modules.',
-        note='PARTIAL: mapper/bind_names/resolve_names are not modelled in Lean (path inclusion T03.3 and coarsening T03.4 are not '
-             'theorems); for that half the check is an exploration with an independent oracle. Trusted: tools/rename_dump.py (derives '
+        note='PARTIAL: mapper / bind_names are not modelled in Lean (their output is the input of the models; the hypothesis cover of '
+             'T03.4 / T03.6 is checked per program, not proved); for that half the check is an exploration with an independent oracle. '
+             'Trusted: tools/resolver_corr.py (dumps the namespace tree), tools/rename_dump.py (derives '
              'reference chains and the documented in-place rule from the annotated tree), tools/scopes.py (scoping spec), tools/alpha.py.',
         technique='Lean 4 proof (loop invariant over the assignment order) + model/implementation correspondence on dumped bindings + symtable-validated alpha-equivalence oracle',
         ref='§6 C03'),
